@@ -291,6 +291,10 @@ class _TypeChecker:
         self.w = L.width(self.spec)
         self.table = L.leaf_table(self.spec)
         self.rejected_steps = set()
+        self.cur_b = None
+        self.seen = {"P": set(), "T": set()}  # patterns observed at a level
+        self.bad = {"P": set(), "T": set()}  # patterns with a finding at that level
+        self.s_status = None
 
     def count(self, name, n=1):
         self.out.counters[name] = self.out.counters.get(name, 0) + n
@@ -298,6 +302,8 @@ class _TypeChecker:
     def finding(self, law, level, where, detail):
         # provisional signature; _blame() below replaces law/top/where by the root-cause triple
         # (level, direction, smallest sub-type that fails on its own)
+        if level in self.bad:
+            self.bad[level].add(self.cur_b)
         self.out.add({"law": law, "level": level, "top": _top(self.spec), "where": where},
                      f"[{law} at {where}] " + detail)
 
@@ -355,10 +361,12 @@ class _TypeChecker:
         has_sarr = "sarr" in L.kinds(self.spec)
         done = 0
         for b in pats:
+            self.cur_b = b
             ok, x = self.step("from_bits", mod.frombits, _bits(self.w, b))
             if not ok:
                 break
             done += 1
+            self.seen["P"].add(b)
             ok, tb = self.step("to_bits", mod.tobits, x)
             if ok:
                 self.cmp_bits("tf", "P", tb, b, n)
@@ -420,6 +428,8 @@ class _TypeChecker:
             return False
         try:
             for i, b in builtins.enumerate(sel):
+                self.cur_b = b
+                self.seen["T"].add(b)
                 _, _, n, tb, lv = res_a[i]
                 if n != self.w:
                     self.finding("count", "T", "type", f"count_bits = {n}, reference width {self.w}")
@@ -436,24 +446,94 @@ class _TypeChecker:
         self.count("T_patterns", len(sel))
         return True
 
-    # ------------------------------------------------------------------ level S (structural)
-    def level_s(self, mod):
+    # ------------------------------------------------------------------ level S (simulated)
+    def _s_level(self, b):
+        """name of the level for a finding at pattern b: which other levels had the right value there"""
+        agree = "".join(lv for lv in ("P", "T") if b in self.seen[lv] and b not in self.bad[lv])
+        return "S!=" + agree if agree else "S"
+
+    def level_s(self, mod, pats):
         try:
             vhdl = compile_entity(mod.Sim)
         except Rejected as r:
             self.out.labels.append(f"S_rejected:{r.exc_type}")
             return False
-        need = ["o1"] + [f"l{n}" for n in range(len(self.table))]
-        missing = [p for p in need if not re.search(rf"\b{p}\s*:\s*out\b", vhdl)]
-        if missing:  # not a law of C17: recorded for the simulated level, which needs these ports
-            self.out.labels.append("S_ports_missing")
         self.count("S_compiled")
-        return True
+        sim = _open_sim(self.out, vhdl, {"i": 0}, self, "S")
+        if sim is None:
+            return False
+        npat = 0
+        for b in pats:
+            self.cur_b = b
+            try:
+                sim.poke(i=b)
+            except _sim_error() as e:
+                self.finding("sim_error", self._s_level(b), "sim",
+                             f"pattern {b:0{self.w}b}: VHDL run-time error {e}")
+                break
+            npat += 1
+            lvl = self._s_level(b)
+            o1 = sim.get("o1")
+            if o1 is None:
+                self.finding("tf", lvl, "undefined", f"pattern {b:0{self.w}b}: o1 = {sim.get_str('o1')}")
+            elif o1 != b:
+                self.finding("tf", lvl, L.blame(self.spec, b, o1),
+                             f"pattern {b:0{self.w}b}: simulated to_bits(from_bits[T](i)) = {o1:0{self.w}b}")
+            exp = L.flat_leaves(self.spec, L.unpack(self.spec, b))
+            for k, (e, (path, leaf, off, lw)) in builtins.enumerate(zip(exp, self.table)):
+                got = sim.get(f"l{k}")
+                self.count("S_leaf_checks")
+                if got is None:
+                    self.finding("from_layout", lvl, _path_kinds(path, leaf),
+                                 f"pattern {b:0{self.w}b}: leaf {path} = {sim.get_str(f'l{k}')} (undefined)")
+                    continue
+                got = int(got) % (1 << lw)
+                if got != e:
+                    self.finding("from_layout", lvl, _path_kinds(path, leaf),
+                                 f"pattern {b:0{self.w}b}: simulated leaf {path} (bits {off + lw - 1}:{off}) = {got:0{lw}b}, "
+                                 f"reference {e:0{lw}b}")
+        self.count("S_patterns", npat)
+        return npat > 0
+
+
+def _sim_error():
+    from cv.vhdl.values import SimError
+
+    return SimError
+
+
+def _open_sim(out, vhdl, inputs, chk=None, level="S"):
+    """analyse + elaborate; classifies static errors / unsupported constructs (never violations).
+    Returns a Sim or None; sets out.status for the blocked classes."""
+    from cv.vhdl.analyze import analyse
+    from cv.vhdl.sim import Blocked, Sim
+    from cv.vhdl.values import SimError
+
+    d = analyse(vhdl)
+    if d.errors:
+        out.status = "blocked_by_static"
+        for e in d.errors[:3]:
+            out.labels.append(f"static:{e.rule}:{str(e.msg)[:70]}")
+        return None
+    if d.unsupported:
+        out.status = "blocked"
+        out.labels.append(f"blocked:{str(d.unsupported)[:80]}")
+        return None
+    try:
+        return Sim(d, top="Sim", inputs=inputs)
+    except Blocked as b:
+        out.status = "blocked"
+        out.labels.append(f"blocked:{str(b)[:80]}")
+        return None
+    except SimError as e:
+        sig = {"law": "sim_error", "level": level, "top": "init", "where": "sim"}
+        out.add(sig, f"VHDL run-time error while elaborating / settling with all-zero inputs: {e}")
+        return None
 
 
 _DIR = {"count": "count", "tf": "to_bits", "tf_type": "to_bits", "to_layout": "to_bits", "to_layout_type": "to_bits",
         "width": "to_bits", "from_layout": "from_bits", "from_layout_type": "from_bits", "ft": "from_bits",
-        "ft_type": "from_bits", "make_leaves": "construct", "make_leaves_type": "construct", "sim_entity": "sim"}
+        "ft_type": "from_bits", "make_leaves": "construct", "make_leaves_type": "construct", "sim_error": "sim_error"}
 
 
 def _children(spec):
@@ -509,7 +589,10 @@ def _blame(spec, out):
                 cache[d] = _minimal_node(spec, d)
             node = cache[d]
         else:
-            node = "top:" + spec["k"]  # only the traced / structural level disagrees
+            # only the traced / simulated level disagrees: innermost composite on the path of the first
+            # wrong leaf / bit (no per-child re-compilation)
+            parts = str(sig.get("where", "")).split("/")
+            node = "in:" + (parts[-2] if len(parts) >= 2 else spec["k"])
         f["signature"] = {"level": sig["level"], "dir": d, "node": node}
 
 
@@ -561,19 +644,24 @@ def _check_type_inner(case):
             return out
         out.labels.append("P_ok")
         chk.count("cases.P." + _top(spec))
-        # tracing costs 0.1-0.7 s per leaf member and pattern (level P: ~1 ms): levels T and S run
-        # on a hash-selected third of the generated types (<= 30 leaves) and an eighth of the catalogue
+        # tracing costs 0.1-0.7 s per leaf member and pattern (level P: ~1 ms): level T runs on a
+        # hash-selected third of the generated types (an eighth of the catalogue), level S (one compile,
+        # simulation itself is cheap: every pattern of the P list) on two thirds (a quarter)
         nleaf = len(chk.table)
         h = int(out.identity, 16)
-        if nleaf <= 30 and (h % 8 == 0 if case.get("catalog") else h % 3 == 0):
-            chk.count("cases.TS_tried." + _top(spec))
+        do_t = nleaf <= 30 and (h % 8 == 0 if case.get("catalog") else h % 3 == 0)
+        do_s = nleaf <= 40 and (h % 4 == 0 if case.get("catalog") else h % 3 != 2)
+        if do_t:
+            chk.count("cases.T_tried." + _top(spec))
             if chk.level_t(mod, pats):
                 out.labels.append("T_ok")
                 chk.count("cases.T." + _top(spec))
-            if chk.level_s(mod):
-                out.labels.append("S_compiled")
+        if do_s:
+            chk.count("cases.S_tried." + _top(spec))
+            if chk.level_s(mod, pats):
+                out.labels.append("S_ok")
                 chk.count("cases.S." + _top(spec))
-        else:
+        if not do_t and not do_s:
             out.labels.append("T_S_skipped")
         out.nontrivial = depth >= 2 and L.uneven(spec)
         return out
